@@ -133,7 +133,14 @@ def kernel_entry(modname, m, f):
 
 def run(targets=None, verbose=False):
   targets = targets or TARGETS
-  reg = tiera.Registry()
+  aliases = {}
+  try:
+    from . import graph
+    graph.run()
+    aliases = json.load(open(os.path.join(GEN, "aliases.json")))
+  except Exception as e:  # the alias table is an input of the kernel translation
+    raise
+  reg = tiera.Registry(aliases)
   for modname, fnames in targets.items():
     m = reg.module(modname)
     for f in fnames:
@@ -231,7 +238,7 @@ def run(targets=None, verbose=False):
     for f in by_mod.get(modname, []):
       ptypes, rtype = m.sigs[f]
       sigs[f"{modname}.{f}"] = {"params": [repr_type(t) for t in ptypes], "ret": repr_type(rtype), "py": f"{modname}.{m.pynames[f]}",
-                                "kind": m.kinds.get(f, "func"), "extras": [list(x) for x in m.extras.get(f, [])], "static_exprs": m.statics.get(f, {})}
+                                "kind": m.kinds.get(f, "func"), "extras": [list(x) for x in m.extras.get(f, [])], "static_exprs": m.statics.get(f, {}), "alloc_sites": m.allocsites.get(f, [])}
       if f in getattr(m, "kernel_scalars", {}):
         sigs[f"{modname}.{f}"]["kernel"] = m.kernel_scalars[f]
   report["signatures"] = sigs
